@@ -762,6 +762,11 @@ inductive Op
   | deleg (a : Nat) (res : Except PyErr (Option (List Text))) (shared : Except PyErr Atts)
   | obsStr (a : Nat) | obsLen (a : Nat) | obsS (a : Nat) | obsWidth (a : Nat)
   | obsColor (a : Nat) (k : Nat)
+  /-- an observation (`which` = 0 `str`, 1 `len`, 2 `.s`, 3 `.width`) of an object whose memo field is unset,
+      interrupted by an exception raised at the `k`-th per-run call (`Chunk.__str__` / `__len__` / `.s` /
+      `.width`, k ≥ 1): no memo field of the FmtStr is written; for `str` the runs before the `k`-th have
+      computed (and memoised) their `color_str`. -/
+  | obsInterrupted (which : Nat) (a : Nat) (k : Nat)
   | eq (a : Nat) (other : Arg)                          -- a == other
   | hash (a : Nat)                                      -- hash(a) = hash(str(a)); the number itself is not modelled
   | setitem (a : Nat)                                   -- f[i] = x
@@ -800,7 +805,7 @@ def opRefs : Op → List Nat
   | .splice a new _ _ | .append a new | .eq a new => a :: new.refs
   | .addStr a _ | .raddStr a _ | .mul a _ | .getitem a _ | .cwna a _ | .nwar a _ | .cwns a _ | .copy a
   | .slices a _ | .just _ a _ _ _ | .wslice a _ | .wsplit a _ _ | .deleg a _ _
-  | .obsStr a | .obsLen a | .obsS a | .obsWidth a | .obsColor a _ | .hash a | .setitem a | .attsMutate a _ _ _ => [a]
+  | .obsStr a | .obsLen a | .obsS a | .obsWidth a | .obsColor a _ | .hash a | .setitem a | .attsMutate a _ _ _ | .obsInterrupted _ a _ => [a]
 
 /-- The command of an operation. -/
 def opCmd (u : UEnv) : Op → Cmd Res
@@ -838,6 +843,12 @@ def opCmd (u : UEnv) : Op → Cmd Res
     match ← obsColor a k with
     | .ok t => pure (.text t)
     | .error e => pure (.err e)
+  | .obsInterrupted which a k =>
+    if which = 0 then do
+      let cs ← contents a
+      let _ ← colorStrs (cs.take (k - 1))
+      pure .opaque
+    else pure .opaque
   | .eq a other => do pure (.bool (← eqOp a other))
   | .hash a => do
     let _ ← obsStr a
